@@ -30,7 +30,10 @@ type Recorder struct {
 	OrderPaths []string
 	CtxSeen    []any
 	CtxLeak    string
-	mu         sync.Mutex
+	// CtxExpect: the context values THIS execution passed (nil: none); every callback compares ctx.Get over
+	// CtxUniverse with it
+	CtxExpect map[string]string
+	mu        sync.Mutex
 }
 
 func (r *Recorder) addEvent(e Event) {
@@ -105,11 +108,22 @@ func (o TOpts) zopts() []z.TestOption {
 // recycled objects
 const LeakKey = "verif_leak"
 
+// CtxUniverse: every context key any execution of the harness ever passes, plus the planted one
+var CtxUniverse = []string{"k1", "k2", "lang", "locale", "a", "b", LeakKey}
+
 func noteCtx(ctx z.Ctx, rec *Recorder) {
-	if v := ctx.Get(LeakKey); v != nil {
-		rec.mu.Lock()
-		rec.CtxLeak = fmt.Sprint(v)
-		rec.mu.Unlock()
+	for _, k := range CtxUniverse {
+		got := ctx.Get(k)
+		want, passed := rec.CtxExpect[k]
+		if (got == nil) != !passed || (passed && got != any(want)) {
+			rec.mu.Lock()
+			if passed {
+				rec.CtxLeak = fmt.Sprintf("Get(%q)=%v, this call passed %q", k, got, want)
+			} else {
+				rec.CtxLeak = fmt.Sprintf("Get(%q)=%v, this call passed no value for it", k, got)
+			}
+			rec.mu.Unlock()
+		}
 	}
 }
 
